@@ -484,7 +484,7 @@ PROPS['C10'] = {
                   'add_namespace_reference never changes an existing binding and binds a new prefix to the entry of that URI; after '
                   'switch_to_target_namespace(u) the current module is the one of u; make_abbreviated_namespace returns an abbreviation unused by '
                   'every listed entry. Unbounded: all strings, all table sizes, all call histories (by induction over the invariant).',
-    'level_note': 'Trusted: assumed std contracts (slice Iterator::any/find via closure postconditions, String==str, HashMap<String,_> key model, '
+    'level_note': 'Also under contract (round 8): node.rs collect_namespaces_on_node — every xmlns declaration in scope of a node goes through add_namespace_reference: the table stays well-formed, existing bindings are unchanged, and every new binding maps a DECLARED prefix to the URI it was declared with (roxmltree `namespaces()` is a contract-only stand-in). Trusted: assumed std contracts (slice Iterator::any/find via closure postconditions, String==str, HashMap<String,_> key model, '
                   'Extend, Rc clone); derive(PartialEq) of Namespace as field-wise equality. ASSUMED zeep contract: create_mod_name_for_namespace returns '
                   '"mod_"+abbreviation (format! text is opaque to Verus). Dropped: the 3-character stem computation in make_abbreviated_namespace '
                   '(pure; its value is irrelevant to uniqueness). Ghost proof blocks are spliced at text anchors. Known finding: RustDocument::extend '
